@@ -51,6 +51,9 @@ func (r *Router) Start(params *OutputPluginParams) {
 	params.Router = r
 	r.output.Start(r.outputInfo.Config, params)
 	if r.IsDeadQueueAvailable() {
-		r.deadQueue.Start(r.deadQueueInfo.Config, params)
+		// the dead queue has no dead queue of its own: when it gives up it must not hand the events back to itself
+		deadQueueParams := *params
+		deadQueueParams.Router = &Router{output: r.deadQueue, outputInfo: r.deadQueueInfo}
+		r.deadQueue.Start(r.deadQueueInfo.Config, &deadQueueParams)
 	}
 }
